@@ -191,16 +191,25 @@ func (s *sharedEntryAttributes) resolve_leafref_key_path(ctx context.Context, ke
 }
 
 func (s *sharedEntryAttributes) validateLeafRefs(ctx context.Context, resultChan chan<- *types.ValidationResultEntry) {
-
-	lref := s.schema.GetField().GetType().GetLeafref()
-	if s.schema == nil || lref == "" {
+	if s.schema == nil {
 		return
 	}
+	// leafrefs are defined on leafs or on leaf-lists
+	var lrefType *sdcpb.SchemaLeafType
+	switch {
+	case s.schema.GetField().GetType().GetLeafref() != "":
+		lrefType = s.schema.GetField().GetType()
+	case s.schema.GetLeaflist().GetType().GetLeafref() != "":
+		lrefType = s.schema.GetLeaflist().GetType()
+	default:
+		return
+	}
+	lref := lrefType.GetLeafref()
 
 	entry, err := s.NavigateLeafRef(ctx)
 	if err != nil || len(entry) == 0 {
 		// check if the OptionalInstance (!require-instances [https://datatracker.ietf.org/doc/html/rfc7950#section-9.9.3])
-		if s.schema.GetField().GetType().GetOptionalInstance() {
+		if lrefType.GetOptionalInstance() {
 			generateOptionalWarning(ctx, s, lref, resultChan)
 			return
 		}
@@ -215,19 +224,65 @@ func (s *sharedEntryAttributes) validateLeafRefs(ctx context.Context, resultChan
 	}
 
 	// Only if the value remains, even after the SetIntent made it through, the LeafRef can be considered resolved.
-	if !entry[0].remainsToExist() {
+	// For a leaf-list every single element has to be resolved.
+	resolved := entry[0].remainsToExist()
+	if resolved && s.schema.GetLeaflist() != nil {
+		resolved = s.leafListReferencesResolved(ctx, entry)
+	}
+	if !resolved {
 		lv := s.leafVariants.GetHighestPrecedence(false, true)
 		EntryPath, _ := s.SdcpbPath()
 
 		// check if the OptionalInstance (!require-instances [https://datatracker.ietf.org/doc/html/rfc7950#section-9.9.3])
-		if s.schema.GetField().GetType().GetOptionalInstance() {
+		if lrefType.GetOptionalInstance() {
 			generateOptionalWarning(ctx, s, lref, resultChan)
 			return
 		}
 		// if required, issue error
-		resultChan <- types.NewValidationResultEntry(lv.Owner(), fmt.Errorf("missing leaf reference: failed resolving leafref %s for %s to path %s LeafVariant %v", lref, utils.ToXPath(EntryPath, false), s.Path().String(), lv), types.ValidationResultEntryTypeError)
+		owner := "unknown"
+		if lv != nil {
+			owner = lv.Owner()
+		}
+		resultChan <- types.NewValidationResultEntry(owner, fmt.Errorf("missing leaf reference: failed resolving leafref %s for %s to path %s LeafVariant %v", lref, utils.ToXPath(EntryPath, false), s.Path().String(), lv), types.ValidationResultEntryTypeError)
 		return
 	}
+}
+
+// leafListReferencesResolved checks that every element of the leaf-list s is the value of
+// one of the given (remaining) target entries.
+func (s *sharedEntryAttributes) leafListReferencesResolved(ctx context.Context, targets []Entry) bool {
+	lv := s.leafVariants.GetHighestPrecedence(false, true)
+	if lv == nil {
+		return true
+	}
+	tv, err := lv.Update.Value()
+	if err != nil {
+		return false
+	}
+	for _, elem := range tv.GetLeaflistVal().GetElement() {
+		found := false
+		for _, target := range targets {
+			if !target.remainsToExist() {
+				continue
+			}
+			targetLv, err := target.getHighestPrecedenceLeafValue(ctx)
+			if err != nil || targetLv == nil {
+				continue
+			}
+			targetVal, err := targetLv.Update.Value()
+			if err != nil {
+				continue
+			}
+			if utils.EqualTypedValues(targetVal, elem) {
+				found = true
+				break
+			}
+		}
+		if !found {
+			return false
+		}
+	}
+	return true
 }
 
 func generateOptionalWarning(ctx context.Context, s Entry, lref string, resultChan chan<- *types.ValidationResultEntry) {
